@@ -75,7 +75,7 @@ fn c04_rdh_validators() {
     rdh_validators(1);
 }
 
-//@ harness: c04_rdh_validators2 props=C04 tier=thorough required=no class=crash covers=2 mem=28 timeout=3000 est=900
+//@ harness: c04_rdh_validators2 props=C04 tier=thorough required=no class=crash covers=2 mem=28 timeout=900 est=900
 //@ bounds: 2 arbitrary headers in sequence
 #[kani::proof]
 #[kani::unwind(3)]
